@@ -302,7 +302,7 @@ def abort_points(tier, seed, stats, found, ref, probes, pool, t_end):
     k_ops, cap = (10, 220) if tier == 'quick' else (120, 100000)
     picked = []
     for name in names:
-        lst = [op for op in gen._light_ops(st[name], 15000) if op['k'] != 'flow']
+        lst = [op for op in st[name] if op['k'] != 'flow' and (gen._HINTS.get(O.op_key(op)) or ['ok', 1 << 30])[1] <= 15000]
         if lst:
             picked.append((name, lst[rng.randrange(len(lst))]))
         if len(picked) >= k_ops:
@@ -325,8 +325,9 @@ def abort_points(tier, seed, stats, found, ref, probes, pool, t_end):
             pts = sorted(rng.sample(pts, cap))
         kind_prefix = name.split('/')[0] + '/' + name.split('/')[1] + '/'
         same_kind = [n_ for n_ in names if n_.startswith(kind_prefix)]
-        acc = [o for n_ in same_kind if n_.endswith('/ok') for o in gen._light_ops(st[n_], 15000)][:40]
-        rej = [o for n_ in same_kind if n_.endswith('/err') for o in gen._light_ops(st[n_], 15000)][:40]
+        light_ = lambda ops_: [o for o in ops_ if (gen._HINTS.get(O.op_key(o)) or ['ok', 1 << 30])[1] <= 15000]  # noqa
+        acc = [o for n_ in same_kind if n_.endswith('/ok') for o in light_(st[n_])][:40]
+        rej = [o for n_ in same_kind if n_.endswith('/err') for o in light_(st[n_])][:40]
         for j, e in enumerate(pts):
             later = [op]
             if acc:
